@@ -35,6 +35,16 @@ def graph(k):
                          field(5, "optional", ST(n("Mp"), True))])
     d[n("Top")] = struct([field(1, "default", ST(n("Mp"), True)), field(2, "default", ST(n("Hd"), False)),
                           field(3, "default", L(ST(n("Rq2"), True)))])
+    # all-scalar structs as by-value / pointer elements; the writer (older schema) sends only field 1, so the
+    # other fields of every element must read as zero whatever memory the element landed in
+    d[n("Fx")] = struct([field(1, "default", T("i32")), field(2, "default", T("i64")), field(3, "default", T("double")), field(4, "default", T("i16"))])
+    d[n("FxL")] = struct([field(1, "default", L(ST(n("Fx"), False))), field(2, "default", L(ST(n("Fx"), True))),
+                          field(3, "default", M(T("string"), ST(n("Fx"), True))), field(4, "default", M(T("i32"), ST(n("Fx"), False))),
+                          field(5, "optional", ST(n("Fx"), True))])
+    d[n("Fw")] = struct([field(1, "default", T("i32"))])
+    d[n("FwL")] = struct([field(1, "default", L(ST(n("Fw"), False))), field(2, "default", L(ST(n("Fw"), True))),
+                          field(3, "default", M(T("string"), ST(n("Fw"), True))), field(4, "default", M(T("i32"), ST(n("Fw"), False))),
+                          field(5, "optional", ST(n("Fw"), True))])
     # the same named 64-bit integer type read as an enum by one struct and as a plain i64 by another
     td = "TdI64_%d" % k
     d[n("En")] = struct([field(1, "default", dict(T("enum"), gotype=td, ann=td)), field(2, "default", L(dict(T("enum"), gotype=td, ann=td)))])
@@ -84,7 +94,8 @@ def run(prop, tier, seed, work):
     defs_path = vlib.write_defs(work, defs)
     # reference-encoded messages (and mutants) for copy 0's types; other copies get the same
     # bytes since their schemas are identical up to names
-    base = ["In", "Rq", "Rq2", "Hd", "Mp", "Top", "En", "Ei"]
+    base = ["In", "Rq", "Rq2", "Hd", "Mp", "Top", "En", "Ei", "FxL", "FwL"]
+    older = {"FxL": "FwL"}       # reader -> a writer with an older schema of it
     badtypes = ["BX", "BY", "BA", "BB", "Bd"]
     cases = []
     vals = {}
@@ -96,6 +107,7 @@ def run(prop, tier, seed, work):
         rng.shuffle(rest)
         vs = (head + rest)[:6]
         vals[b] = vs
+        cases.append({"cid": "%s|z|ok" % b, "w": s, "val": U.zero_struct(s, defs), "ord": "asc", "trail": [], "mut": "none"})
         for i, (lbl, v) in enumerate(vs):
             cases.append({"cid": "%s|%d|ok" % (b, i), "w": s, "val": v, "ord": ["asc", "desc", "rot", "evod"][i % 4], "trail": [], "mut": "none"})
             if i < 2:
@@ -104,6 +116,7 @@ def run(prop, tier, seed, work):
     res.tlc_states += st.get("distinct", 0)
     res.tlc_transitions += st.get("generated", 0)
     okmsgs = {b: [msgs["%s|%d|ok" % (b, i)][0] for i in range(len(vals[b]))] for b in base}
+    zmsg = {b: msgs["%s|z|ok" % b][0] for b in base}
     badmsgs = {b: [m for i in range(2) for m in msgs["%s|%d|prefix" % (b, i)]] for b in base}
     # cross-type messages: a message of one type decoded as another (unknown / retyped fields, missing required)
     scen = []
@@ -117,6 +130,12 @@ def run(prop, tier, seed, work):
         for j in range(length):
             b = order[j % len(order)] if j < len(order) else rng.choice(base)
             op = rng.random()
+            if rng.random() < 0.10:
+                steps.append({"op": "gc"})       # collections with churn: recycled memory is not zero
+                continue
+            if b in older and rng.random() < 0.6:
+                steps.append({"op": "decode", "ty": n(b), "in": rng.choice(okmsgs[older[b]]), "dest": rng.choice(["fresh", "zero"])})
+                continue
             if rng.random() < 0.12:
                 # a call on a type that reaches an unsupported member: rejected, whatever happened before
                 steps.append({"op": "reject", "ty": n(rng.choice(badtypes)), "entry": rng.choice(["size", "encode", "decode"]), "arg": "ptr", "class": "cycle", "repeat": 1})
@@ -142,30 +161,53 @@ def run(prop, tier, seed, work):
                     f1 = "nil_struct_with_required_fields" in checks_codec.struct_tags(n(b), v, defs)
                     if rng.random() < 0.5 and not f1:   # (F1 values do not round-trip, whatever the history)
                         steps.append({"op": "decode", "ty": n(b), "from": len(steps) - 1, "dest": "fresh", "orig": vi})
+        # objects decoded earlier in the sequence must still hold what they held
+        kept = [i for i, st in enumerate(steps) if st.get("op") == "decode"][:8]
+        for i in kept:
+            steps.append({"op": "recheck", "obj": i, "after": "end"})
         sid = "C07-seq-%d" % k
         scen.append({"sid": sid, "prop": prop, "vals": svals, "steps": steps, "tags": [], "dkey": sid})
     # systematic: every truncation of a message, each followed by complete messages of the same type
     # (what a failed decode leaves in the pools must not show in the next result)
     kcopy = ncopies - 1
     for b in base:
-        steps = []
+        ty = "%s_%d" % (b, kcopy)
         goods = okmsgs[b]
+        steps, fresh_ok, nscen = [], [], 0
+
+        def flush():
+            nonlocal steps, fresh_ok, nscen
+            if steps:
+                sid = "C07-failok-%s-%d" % (b, nscen)
+                scen.append({"sid": sid, "prop": prop, "vals": [], "steps": steps, "tags": [], "dkey": sid})
+                nscen += 1
+            steps, fresh_ok = [], []
         for i, bad in enumerate(badmsgs[b]):
-            # after every truncation, every complete message once (each directly behind a failure at least once)
+            # after every truncation, complete messages (each directly behind a failure at least once)
             for gi, g in enumerate(goods):
-                if (i + gi) % 3 == 0 or len(badmsgs[b]) < 150:
-                    steps.append({"op": "decode", "ty": "%s_%d" % (b, kcopy), "in": bad, "dest": "fresh"})
-                    steps.append({"op": "decode", "ty": "%s_%d" % (b, kcopy), "in": g, "dest": "fresh"})
-        for i in range(0, len(steps), 120):
-            sid = "C07-failok-%s-%d" % (b, i)
-            scen.append({"sid": sid, "prop": prop, "vals": [], "steps": steps[i:i + 120], "tags": [], "dkey": sid})
+                if not ((i + gi) % 3 == 0 or len(badmsgs[b]) < 150):
+                    continue
+                steps.append({"op": "decode", "ty": ty, "in": bad, "dest": "fresh"})
+                if (i + gi) % 2 == 0:
+                    steps.append({"op": "decode", "ty": ty, "in": g, "dest": "fresh"})
+                    fresh_ok.append(len(steps) - 1)
+                else:
+                    # the caller reuses the destination the failed call left partially filled: fields the
+                    # next message does not carry keep what they held
+                    steps.append({"op": "decode", "ty": ty, "in": zmsg[b], "dest": "into", "obj": len(steps) - 1})
+                # an object decoded a while ago into a fresh destination (never decoded into again) still holds its value
+                if len(steps) % 7 == 0 and len(fresh_ok) > 3:
+                    steps.append({"op": "recheck", "obj": fresh_ok[-3], "after": "decode"})
+                if len(steps) >= 110:
+                    flush()
+        flush()
     suite.run_batches(res, work, [Batch("history", defs, scen, env={"GOMAXPROCS": "1"})], want_props=ALLPROPS)
     return suite.finish(res, RULE, ASSUME)
 
 
 # in a history scenario a wrong result of any kind is a dependence on history (the same calls
 # pass when made first), so every clause counts
-ALLPROPS = {"C01", "C02", "C03", "C04", "C05", "C07", "C09", "C10", "C11", "C13", "C16"}
+ALLPROPS = {"C01", "C02", "C03", "C04", "C05", "C06", "C07", "C09", "C10", "C11", "C13", "C16"}
 
 
 def rename(v, frm, to):
